@@ -85,15 +85,26 @@ def _collect_fields(fm, field_s):
         if f not in field_s:
             _collect_fields(f, field_s)
 
-def _dispose_fields(fm, visited_s):
-    """Releases the solver handles of a field and of all the fields below it"""
+def _collect_randsz_len(fm, len_m, visited_s):
+    """Records the current length of the random-size lists at or below a field"""
+    if id(fm) in visited_s:
+        return
+    visited_s.add(id(fm))
+    if getattr(fm, "is_rand_sz", False) and getattr(fm, "is_scalar", False):
+        len_m[id(fm)] = len(fm.field_l)
+    for f in getattr(fm, "field_l", []):
+        _collect_randsz_len(f, len_m, visited_s)
+
+def _dispose_fields(fm, visited_s, restore_len_m=None):
+    """Releases the solver handles of a field and of all the fields below it.
+    restore_len_m holds the lengths that random-size lists return to (failed call)"""
     if id(fm) in visited_s:
         # Object graphs may be cyclic
         return
     visited_s.add(id(fm))
     if hasattr(fm, "field_l"):
         for f in fm.field_l:
-            _dispose_fields(f, visited_s)
+            _dispose_fields(f, visited_s, restore_len_m)
         if hasattr(fm, "sum_expr_btor"):
             fm.size.dispose()
             fm.sum_expr_btor = None
@@ -104,8 +115,12 @@ def _dispose_fields(fm, visited_s):
                 # Keep the storage of a random-size list in step with the size 
                 # the user sees, also when the call failed part-way
                 sz = int(fm.size.get_val())
+                if restore_len_m is not None and id(fm) in restore_len_m:
+                    sz = restore_len_m[id(fm)]
                 if 0 <= sz < len(fm.field_l):
                     del fm.field_l[sz:]
+                if restore_len_m is not None:
+                    fm._set_size(len(fm.field_l))
     else:
         fm.dispose()
 
@@ -644,53 +659,61 @@ class Randomizer(RandIF):
         bounds_v = VariableBoundVisitor()
         bounds_v.process(field_model_l, constraint_l, False)
 
-        # TODO: need to handle inline constraints that impact arrays
-        constraints_len = len(constraint_l)
+        # A call that fails must leave the random-size lists as long as 
+        # the user last saw them
+        randsz_len_m = {}
         for fm in field_model_l:
-            constraint_l.extend(ArrayConstraintBuilder.build(
-                fm, bounds_v.bound_m))
-            # Now, handle dist constraints
-            DistConstraintBuilder.build(randstate, fm)
-            
-        for c in constraint_l:
-            constraint_l.extend(ArrayConstraintBuilder.build(
-                c, bounds_v.bound_m))
-            # Now, handle dist constraints
-            DistConstraintBuilder.build(randstate, c)
+            _collect_randsz_len(fm, randsz_len_m, set())
 
-        # If we made changes during array remodeling,
-        # re-run bounds checking on the updated model
-#        if len(constraint_l) != constraints_len:
-        bounds_v.process(field_model_l, constraint_l)
-
-        if debug > 0:
-            print("Final Model:")        
-            for fm in field_model_l:
-                print("  " + ModelPrettyPrinter.print(fm))
-            for c in constraint_l:
-                print("  " + ModelPrettyPrinter.print(c, show_exp=True))
-
-#        if lint > 0:
-#            LintVisitor().lint(
-#                field_model_l,
-#                constraint_l)
-            
-
-        r = Randomizer(
-            randstate,
-            solve_info=solve_info,
-            debug=debug, 
-            lint=lint, 
-            solve_fail_debug=solve_fail_debug)
-#        if Randomizer._rng is None:
-#            Randomizer._rng = random.Random(random.randrange(sys.maxsize))
-        ri = RandInfoBuilder.build(field_model_l, constraint_l, Randomizer._rng)
-        
-        if _verif_enabled and _verif_hook is not None:
-            _verif_hook("pre_solve", ri, bounds_v.bound_m, field_model_l, constraint_l)
-        
+        ok = False
         try:
+            # TODO: need to handle inline constraints that impact arrays
+            constraints_len = len(constraint_l)
+            for fm in field_model_l:
+                constraint_l.extend(ArrayConstraintBuilder.build(
+                    fm, bounds_v.bound_m))
+                # Now, handle dist constraints
+                DistConstraintBuilder.build(randstate, fm)
+            
+            for c in constraint_l:
+                constraint_l.extend(ArrayConstraintBuilder.build(
+                    c, bounds_v.bound_m))
+                # Now, handle dist constraints
+                DistConstraintBuilder.build(randstate, c)
+
+            # If we made changes during array remodeling,
+            # re-run bounds checking on the updated model
+#            if len(constraint_l) != constraints_len:
+            bounds_v.process(field_model_l, constraint_l)
+
+            if debug > 0:
+                print("Final Model:")        
+                for fm in field_model_l:
+                    print("  " + ModelPrettyPrinter.print(fm))
+                for c in constraint_l:
+                    print("  " + ModelPrettyPrinter.print(c, show_exp=True))
+
+#            if lint > 0:
+#                LintVisitor().lint(
+#                    field_model_l,
+#                    constraint_l)
+            
+
+            r = Randomizer(
+                randstate,
+                solve_info=solve_info,
+                debug=debug, 
+                lint=lint, 
+                solve_fail_debug=solve_fail_debug)
+#            if Randomizer._rng is None:
+#                Randomizer._rng = random.Random(random.randrange(sys.maxsize))
+            ri = RandInfoBuilder.build(field_model_l, constraint_l, Randomizer._rng)
+        
+            if _verif_enabled and _verif_hook is not None:
+                _verif_hook("pre_solve", ri, bounds_v.bound_m, field_model_l, constraint_l)
+        
             r.randomize(ri, bounds_v.bound_m)
+            ok = True
         finally:
             # Rollback any constraints we've replaced for arrays
             if solve_info is not None:
@@ -699,7 +722,7 @@ class Randomizer(RandIF):
             for fm in field_model_l:
                 ConstraintOverrideRollbackVisitor.rollback(fm)
                 # Solver handles must not outlive the call, however it ends
-                _dispose_fields(fm, set())
+                _dispose_fields(fm, set(), None if ok else randsz_len_m)
 
         visited = [] 
         for fm in field_model_l:
